@@ -111,8 +111,38 @@ Definition last_is_final_done (l : option lastpkg) : bool :=
   | None => false
   end.
 
-(* the parse loop of WritePacket after AddPacket; fuel = length of the buffer + 1 *)
-Fixpoint rx_loop (fuel : nat) (need nenv : nat) (b : bytes) (e : bool) (l : option lastpkg) : list ev * rxs :=
+(* one successful or failed attempt of tryParsePackage on a non-empty buffer (token :: body) *)
+Inductive sres :=
+| SOk (es : list ev) (l' : option lastpkg) (r : bytes)     (* parsed: events, new last package, unparsed rest *)
+| SNeb                                                       (* not enough bytes (every byte was looked at) *)
+| SErr (es : list ev) (allc : bool).                         (* error; allc: the failing attempt consumed everything *)
+
+Definition forget_done (l : option lastpkg) : option lastpkg :=
+  match l with Some lp => if is_done_tok (l_tok lp) then None else l | None => None end.
+
+Definition rx_step (need nenv : nat) (l : option lastpkg) (tok : Z) (body : bytes) : sres :=
+  match last_ctx tok l with
+  | None => SErr [EvErr 60] false                                  (* error in LastPkg *)
+  | Some (ctx, lparam, lrow) =>
+    match chan_dec tok ctx body with
+    | PNeb => SNeb
+    | PErr c r => SErr [EvErr 61] (match r with [] => true | _ :: _ => false end)
+    | PPanic => SErr [EvErr (-1)] false
+    | POk fields r =>
+      if tok =? tok_envchange then SOk (env_members nenv (t_list fields)) l r
+      else if (tok =? tok_eed) && Z.testbit (t_int (t_nth 4 fields)) 1 then SOk [] l r          (* informational EED: dropped *)
+      else
+        let hooks := if tok =? tok_eed then hook_calls need (fun i => EvEedHook i fields) else [] in
+        SOk (hooks ++ [EvDeliver tok fields])
+            (Some {| l_tok := tok; l_fields := fields; l_param := lparam; l_row := lrow |}) r
+    end
+  end.
+
+(* the parse loop of WritePacket after AddPacket, for any parse step; fuel = length of the buffer + 1 *)
+Section Loop.
+Variable step : option lastpkg -> Z -> bytes -> sres.
+
+Fixpoint gen_loop (fuel : nat) (b : bytes) (e : bool) (l : option lastpkg) : list ev * rxs :=
   match fuel with
   | O => ([], {| buf := b; eom := e; lastp := l |})
   | S f =>
@@ -120,45 +150,27 @@ Fixpoint rx_loop (fuel : nat) (need nenv : nat) (b : bytes) (e : bool) (l : opti
     | [] =>
       (* Byte() fails: at the end of a message the final DONE is synthesised unless the last delivered package
          is one; the queue is reset and a remembered DONE forgotten; otherwise: wait for the next packet *)
-      if e then ((if last_is_final_done l then [] else [EvSynthDone]),
-                 {| buf := []; eom := false;
-                    lastp := match l with Some lp => if is_done_tok (l_tok lp) then None else l | None => None end |})
+      if e then ((if last_is_final_done l then [] else [EvSynthDone]), {| buf := []; eom := false; lastp := forget_done l |})
       else ([], {| buf := []; eom := false; lastp := l |})
     | tok :: body =>
-      match last_ctx tok l with
-      | None => ([EvErr 60], {| buf := b; eom := e; lastp := l |})                  (* error in LastPkg: position rolled back *)
-      | Some (ctx, lparam, lrow) =>
-        match chan_dec tok ctx body with
-        | PNeb =>
-          (* not enough bytes: every byte was looked at; at EOM the queue is reset (the incomplete data is dropped),
-             otherwise the position is rolled back *)
-          if e then ([], {| buf := []; eom := false;
-                            lastp := match l with Some lp => if is_done_tok (l_tok lp) then None else l | None => None end |})
-          else ([], {| buf := b; eom := e; lastp := l |})
-        | PErr c r =>
-          (* parse error: reported; if the failing attempt consumed everything at the end of a message the queue
-             is reset, otherwise the position is rolled back (the same error is raised again by the next packet) *)
-          match r with
-          | [] => if e then ([EvErr 61], {| buf := []; eom := false;
-                                          lastp := match l with Some lp => if is_done_tok (l_tok lp) then None else l | None => None end |})
-                  else ([EvErr 61], {| buf := b; eom := e; lastp := l |})
-          | _ :: _ => ([EvErr 61], {| buf := b; eom := e; lastp := l |})
-          end
-        | PPanic => ([EvErr (-1)], {| buf := b; eom := e; lastp := l |})
-        | POk fields r =>
-          if tok =? tok_envchange then
-            let '(es, st) := rx_loop f need nenv r e l in (env_members nenv (t_list fields) ++ es, st)
-          else if (tok =? tok_eed) && Z.testbit (t_int (t_nth 4 fields)) 1 then
-            rx_loop f need nenv r e l                                                  (* informational EED: dropped *)
-          else
-            let hooks := if tok =? tok_eed then hook_calls need (fun i => EvEedHook i fields) else [] in
-            let l' := Some {| l_tok := tok; l_fields := fields; l_param := lparam; l_row := lrow |} in
-            let '(es, st) := rx_loop f need nenv r e l' in
-            (hooks ++ EvDeliver tok fields :: es, st)
-        end
+      match step l tok body with
+      | SOk es l' r => let '(es2, st) := gen_loop f r e l' in (es ++ es2, st)
+      | SNeb =>
+        (* at EOM the queue is reset (the incomplete data is dropped), otherwise the position is rolled back *)
+        if e then ([], {| buf := []; eom := false; lastp := forget_done l |})
+        else ([], {| buf := b; eom := e; lastp := l |})
+      | SErr es allc =>
+        (* reported; if the failing attempt consumed everything at the end of a message the queue is reset,
+           otherwise the position is rolled back (the same error is raised again by the next packet) *)
+        if allc && e then (es, {| buf := []; eom := false; lastp := forget_done l |})
+        else (es, {| buf := b; eom := e; lastp := l |})
       end
     end
   end.
+End Loop.
+
+Definition rx_loop (fuel : nat) (need nenv : nat) (b : bytes) (e : bool) (l : option lastpkg) : list ev * rxs :=
+  gen_loop (rx_step need nenv) fuel b e l.
 
 (* WritePacket: a header-only packet is delivered as such; otherwise the data is appended and parsed *)
 Record packet_in := { p_hdr : tree; p_len : Z; p_eom : bool; p_body : bytes }.
